@@ -200,7 +200,8 @@ func runC17(w *World, tr *Trace) {
 		if err := e.VCreate("fw", distanceMetric(cfg.FwMetric), 16, 200, "float32", "", nil, nil, nil); err != nil {
 			panic(harnessErr{err.Error()})
 		}
-		for id, a := range cfg.Forbidden {
+		for _, id := range sortedKeys(cfg.Forbidden) {
+			a := cfg.Forbidden[id]
 			e.VAdd("fw", id, []float32{float32(math.Cos(a)), float32(math.Sin(a))}, map[string]any{"text": id})
 		}
 		if err := e.VCreate("cache", "cosine", 16, 200, "float32", cfg.CacheLang, nil, nil, nil); err != nil {
@@ -310,13 +311,19 @@ func runC17(w *World, tr *Trace) {
 				}
 				if !mustBlock {
 					a := emb.angle(last)
-					for id, fa := range cfg.Forbidden {
-						d := distOnCircle(cfg.FwMetric, a, fa)
+					borderline := false
+					for _, id := range sortedKeys(cfg.Forbidden) {
+						d := distOnCircle(cfg.FwMetric, a, cfg.Forbidden[id])
 						if d < float64(cfg.FwThr)*0.9 {
-							mustBlock, why = true, fmt.Sprintf("embedding at %s distance %.4f from forbidden prompt %s (threshold %.2f)", cfg.FwMetric, d, id, cfg.FwThr)
+							if !mustBlock {
+								mustBlock, why = true, fmt.Sprintf("embedding at %s distance %.4f from forbidden prompt %s (threshold %.2f)", cfg.FwMetric, d, id, cfg.FwThr)
+							}
 						} else if d < float64(cfg.FwThr)*1.1 {
-							why = "borderline"
+							borderline = true
 						}
+					}
+					if borderline && !mustBlock {
+						why = "borderline"
 					}
 				}
 			}
